@@ -185,6 +185,37 @@ type hist struct {
 	events   []event
 	counts   map[string]int
 	violated bool
+	watch    []watched // buffers contexts were restored from: the caller's, they must stay as they were
+}
+
+type watched struct {
+	buf, orig []byte
+	who       string
+}
+
+// afterRestore: the buffer a context was decoded from belongs to the caller.
+// Half of the time it is overwritten at once (a restored context that still
+// looks into it then diverges from the model), otherwise it is kept and must
+// be found unchanged after every later operation.
+func (h *hist) afterRestore(raw []byte, who string) {
+	if h.r.Bool() {
+		for i := range raw {
+			raw[i] = 0xEE ^ byte(i)
+		}
+		h.count("restore:buffer-overwritten")
+		return
+	}
+	h.watch = append(h.watch, watched{raw, lib.Clone(raw), who})
+	h.count("restore:buffer-watched")
+}
+
+func (h *hist) checkWatched() {
+	for _, w := range h.watch {
+		if !lib.Eq(w.buf, w.orig) {
+			h.viol("C08:restored-context-writes-to-callers-buffer:"+w.who, "before", w.orig, "after", w.buf)
+			return
+		}
+	}
 }
 
 func (h *hist) count(name string) { h.counts[name]++ }
@@ -586,6 +617,7 @@ func (h *hist) opRestoreSealer() {
 	}
 	h.count("restore")
 	h.count("restore:sealer")
+	h.afterRestore(raw, "sealer")
 	if h.r.Bool() {
 		// twin step: the original and the restored object, same input, must
 		// give the same output (the model steps once, the restored object is
@@ -619,6 +651,7 @@ func (h *hist) opRestoreOpener() {
 	}
 	h.count("restore")
 	h.count("restore:opener")
+	h.afterRestore(raw, "opener")
 	h.opener = o2
 }
 
@@ -683,6 +716,8 @@ func runHistory(id int, aead uint16, st start, idx int, log *eventLog) {
 		lib.Violation("C08:crafted-context-refused", mon, lib.D("raw", rawO, "err", err))
 		return
 	}
+	h.afterRestore(rawS, "sealer")
+	h.afterRestore(rawO, "opener")
 	depth := 12 + r.Intn(29)
 	opsSeen := map[string]bool{}
 	h.count("histories")
@@ -739,6 +774,9 @@ func runHistory(id int, aead uint16, st start, idx int, log *eventLog) {
 		if !h.violated {
 			h.checkState(op)
 		}
+		if !h.violated {
+			h.checkWatched()
+		}
 	}
 	// ciphertexts handed out earlier must not have been touched by later operations
 	for i, c := range h.cts {
@@ -755,7 +793,7 @@ func TestVerifHistories(t *testing.T) {
 	lib.Mandatory("histories", "ops", "seal-ok", "open-ok", "failed-open", "failed-open:earlier", "failed-open:later",
 		"failed-open:crafted-other-seq", "failed-open:next-bitflip",
 		"carry-2^8", "carry-2^16", "carry-2^32", "carry-2^64", "carry-2^8:opener", "carry-2^16:opener", "carry-2^32:opener", "carry-2^64:opener",
-		"overflow:seal", "overflow:open", "restore", "restore:sealer", "restore:opener", "restore:twin-step", "cross-role-refused",
+		"overflow:seal", "overflow:open", "restore:buffer-overwritten", "restore:buffer-watched", "restore", "restore:sealer", "restore:opener", "restore:twin-step", "cross-role-refused",
 		"export", "offline:seals-checked", "offline:opens-checked")
 	sts := starts()
 	per := lib.Scale(150, 7500)
